@@ -21,8 +21,8 @@ VulSet == {}
 VARIABLES st, res
 A == INSTANCE Auction
 
-VARIABLES i, skip, nrej
-tvars == <<st, res, i, skip, nrej>>
+VARIABLES i, skip, nrej, seen
+tvars == <<st, res, i, skip, nrej, seen>>
 
 Null == [none |-> TRUE]
 
@@ -47,7 +47,11 @@ LawOK(s) ==
   /\ A!Contract(s) = LawContract(s.dealer, s.vul, s.hist)
   /\ \A p \in Seats : s.perSeat[p] = LawShare(s.dealer, s.hist, p)
 
+\* names of the failing clauses of a sequence of <<name, bool>> pairs
+FailSet(checks) == {checks[k][1] : k \in {j \in 1..Len(checks) : ~checks[j][2]}}
+
 TInit == /\ i = 1 /\ skip = FALSE /\ nrej = 0 /\ st = Null /\ res = "none"
+         /\ seen = {}
 
 Consume ==
   /\ i <= NTrace
@@ -56,32 +60,47 @@ Consume ==
      IF e.ev = "new" THEN
         LET s0 == A!InitAuction(e.dealer, e.vul)
             c  == AllFails(Observed(e, s0))
-        IN /\ res' = "new"
+        IN /\ res' = "new" /\ seen' = {}
            /\ IF c = "" THEN st' = s0 /\ skip' = FALSE /\ nrej' = nrej
               ELSE /\ Reject(e.tid, i, "new:" \o c)
                    /\ st' = s0 /\ skip' = TRUE /\ nrej' = nrej + 1
-     ELSE IF skip THEN UNCHANGED <<st, res, skip, nrej>>
+     ELSE IF skip THEN UNCHANGED <<st, res, skip, nrej, seen>>
      ELSE
         LET r == A!Step(st, e.call)
-            c == AllFails(<< <<"result", e.res = r.res>> >>
+            checks == << <<"result", e.res = r.res>> >>
                           \o (IF IsSame(e)
                               THEN << <<"unchanged", r.st = st>> >>
                               ELSE Observed(e, r.st))
                           \o (IF IsSame(e) THEN <<>>
-                              ELSE << <<"MODEL-LAW", LawOK(r.st)>> >>))
+                              ELSE << <<"MODEL-LAW", LawOK(r.st)>> >>)
+            c == AllFails(checks)
+            fs == FailSet(checks)
         IN /\ res' = r.res
            /\ IF c = ""
               THEN /\ st' = IF e.ev = "fork" THEN st ELSE r.st
-                   /\ skip' = FALSE /\ nrej' = nrej
+                   /\ skip' = FALSE /\ nrej' = nrej /\ seen' = seen
+              ELSE IF e.res = r.res
+              \* the call was accepted / refused as specified but the state
+              \* shown differs: report the clauses not yet reported for this
+              \* trace and go on with the specification's state, so that later
+              \* consequences (e.g. the final contract) are judged as well
+              THEN /\ IF fs \subseteq seen THEN nrej' = nrej
+                      ELSE /\ Reject(e.tid, i, e.ev \o ":exp=" \o r.res \o ":got="
+                                                \o e.res \o ":fail=" \o c)
+                           /\ nrej' = nrej + 1
+                   /\ seen' = seen \cup fs
+                   /\ st' = IF e.ev = "fork" THEN st ELSE r.st
+                   /\ skip' = FALSE
               ELSE /\ Reject(e.tid, i, e.ev \o ":exp=" \o r.res \o ":got="
                                          \o e.res \o ":fail=" \o c)
                    /\ st' = st /\ skip' = TRUE /\ nrej' = nrej + 1
+                   /\ seen' = seen
 
 Done ==
   /\ i = NTrace + 1
   /\ Finish(NTrace, nrej)
   /\ i' = i + 1
-  /\ UNCHANGED <<st, res, skip, nrej>>
+  /\ UNCHANGED <<st, res, skip, nrej, seen>>
 
 TNext == Consume \/ Done
 TSpec == TInit /\ [][TNext]_tvars
